@@ -1251,6 +1251,28 @@ func main() {
 		os.Exit(1)
 	}
 
+	// the versions of the code must be the versions translated
+	{
+		have := map[string]bool{}
+		for name := range in.consts {
+			if regexp.MustCompile(`^v\d+_\d+$`).MatchString(name) {
+				if v, ok := in.constVal(name); ok {
+					if sv, ok := v.(vStr); ok {
+						have[string(sv)] = true
+					}
+				}
+			}
+		}
+		want := map[string]bool{}
+		for _, v := range versions {
+			want[v] = true
+		}
+		if !reflect.DeepEqual(have, want) {
+			fmt.Fprintf(os.Stderr, "hashprog: FAIL: the format versions declared in cluster/version.go (%d) are not the ones this translator and the Coq development cover (%d): extend `versions`, Codec/ClusterHash.v and the harness\n", len(have), len(want))
+			os.Exit(1)
+		}
+	}
+
 	type prog struct{ name, text string }
 	var progs []prog
 	run := func(name, version, entry string, args func() []any, statics map[string]string) {
